@@ -8,6 +8,24 @@
 //!                                 | ok <size()> <continuous hex> <to_buffers hex | ~> ; <parse result of its own body, as in P (with acc=)> ; eq=<0|1>
 //!   E <ver> <pw> <fh hex> len=<n> cases=<n> ok=<n> err=<n> panic=<n> bad=<n>     (harness-side exhaustive sweep, full alphabet)
 //!
+//! `<k=v …>` of a `B` line: the builder call, one token per setter, `none` = the setter is not called
+//! (the Lean driver rebuilds the call from it and runs the MODEL of the builder next to the real one);
+//! byte strings in hex (`-` = empty), numbers decimal, booleans 0/1, `props` = the concatenated
+//! encodings of the (already constructed) properties:
+//!     CONNECT       cs ka cid will=<topic hex>,<payload hex>,<qos>,<retain> user pass props wprops   (props/wprops `none` in v3.1.1)
+//!     CONNACK       sp rc [props]
+//!     PUBLISH       topic qos dup retain pid payload props                       (props `none` in v3.1.1)
+//!     PUBACK…COMP   pid rc props                                                 (props `none` in v3.1.1)
+//!     SUBSCRIBE     pid entries=<n>:<filter hex>/<options byte>{,<filter hex>/<options byte>} props
+//!     SUBACK        pid codes=<hex> props        UNSUBACK v5 the same, v3.1.1 `pid` only
+//!     UNSUBSCRIBE   pid topics=<n>:<filter hex>{,<filter hex>} props
+//!     PINGREQ / PINGRESP / DISCONNECT v3.1.1    -
+//!     DISCONNECT / AUTH v5   rc props
+//!   a first token `op=<name>/<alias>/<new topic hex>/<base topic hex>/<base props>` marks the result of a
+//!   post-construction operation of a v5.0 PUBLISH (`add_topic_alias`, …) applied to the packet built from the
+//!   base topic / props (and the line's qos / payload); the other tokens are the DERIVED call, the fields a
+//!   builder needs to produce the same packet.
+//!
 //! R1/R0: re-parsing the packet's own encoding gives / does not give a packet with the same encoding.
 //!
 //! acc=<dump>: the "accessor dump" of the accepted packet — every field value as the packet's PUBLIC
@@ -910,68 +928,186 @@ macro_rules! with_pid {
     };
 }
 
-/// generates one builder case of packet type `ty` and returns its frame (if accepted)
-fn gen_case(rng: &mut Rng, ver: u8, pw: u8, ty: u8, big: bool, out: &mut dyn Write) -> Option<Vec<u8>> {
-    let may = |rng: &mut Rng, num: u64, den: u64| rng.chance(num, den);
-    match (ver, ty) {
-        (_, 1) => {
-            let cs = if may(rng, 2, 3) { Some(rng.chance(1, 2)) } else { None };
-            let ka = if may(rng, 2, 3) { Some(rng.next() as u16) } else { None };
-            let cid = if may(rng, 4, 5) { { let n = gen_len(rng, big); Some(gen_string(rng, n)) } } else { None };
-            let will = if may(rng, 1, 2) {
-                let n = gen_len(rng, big);
-                Some((gen_topic(rng, big), gen_bytes(rng, n), rng.below(3) as u8, rng.chance(1, 2)))
-            } else {
-                None
-            };
-            let user = if may(rng, 1, 2) { { let n = gen_len(rng, big); Some(gen_string(rng, n)) } } else { None };
-            let pass = if may(rng, 2, 5) { { let n = gen_len(rng, big); Some(gen_bytes(rng, n)) } } else { None };
-            let props = if ver == 5 && may(rng, 2, 3) { Some(gen_props(rng, &CONNECT_P, big)) } else { None };
-            let wprops = if ver == 5 && (will.is_some() || may(rng, 1, 10)) && may(rng, 2, 3) { Some(gen_props(rng, &WILL_P, big)) } else { None };
-            let desc = format!(
-                "cs={} ka={} cid={} will={} user={} pass={} props={} wprops={}",
-                opt(&cs.map(|b| b as u8)),
-                opt(&ka),
-                opt_hex(&cid.clone().map(|s| s.into_bytes())),
-                match &will {
-                    Some((t, p, q, r)) => format!("{},{},{},{}", hex(t.as_bytes()), hex(p), q, *r as u8),
-                    None => "none".to_string(),
-                },
-                opt_hex(&user.clone().map(|s| s.into_bytes())),
-                opt_hex(&pass),
-                opt_props(&props),
-                opt_props(&wprops)
-            );
-            let qos = |q: u8| Qos::try_from(q).unwrap();
-            if ver == 4 {
-                b_line(out, ver, pw, 0x10, &desc, || {
-                    let mut b = v3::Connect::builder();
-                    if let Some(c) = cs { b = b.clean_session(c); }
-                    if let Some(c) = &cid { b = b.client_id(c.as_str())?; }
-                    if let Some((t, p, q, r)) = &will { b = b.will_message(t.as_str(), p.clone(), qos(*q), *r)?; }
-                    if let Some(u) = &user { b = b.user_name(u.as_str())?; }
-                    if let Some(p) = &pass { b = b.password(p.clone())?; }
-                    if let Some(k) = ka { b = b.keep_alive(k); }
-                    b.build()
-                }, |_, body| v3::Connect::parse(body))
-            } else {
-                b_line(out, ver, pw, 0x10, &desc, || {
-                    let mut b = v5::Connect::builder();
-                    if let Some(c) = cs { b = b.clean_start(c); }
-                    if let Some(c) = &cid { b = b.client_id(c.as_str())?; }
-                    if let Some((t, p, q, r)) = &will { b = b.will_message(t.as_str(), p.clone(), qos(*q), *r)?; }
-                    if let Some(u) = &user { b = b.user_name(u.as_str())?; }
-                    if let Some(p) = &pass { b = b.password(p.clone())?; }
-                    if let Some(k) = ka { b = b.keep_alive(k); }
-                    if let Some(p) = &props { b = b.props(p.clone()); }
-                    if let Some(p) = &wprops { b = b.will_props(p.clone()); }
-                    b.build()
-                }, |_, body| v5::Connect::parse(body))
-            }
+
+type WillCase = (String, Vec<u8>, u8, bool);
+
+/// one CONNECT builder case (setters in the order client ids use them)
+#[allow(clippy::too_many_arguments)]
+fn connect_case(
+    out: &mut dyn Write,
+    ver: u8,
+    pw: u8,
+    cs: Option<bool>,
+    ka: Option<u16>,
+    cid: Option<String>,
+    will: Option<WillCase>,
+    user: Option<String>,
+    pass: Option<Vec<u8>>,
+    props: Option<Properties>,
+    wprops: Option<Properties>,
+) -> Option<Vec<u8>> {
+    let desc = format!(
+        "cs={} ka={} cid={} will={} user={} pass={} props={} wprops={}",
+        opt(&cs.map(|b| b as u8)),
+        opt(&ka),
+        opt_hex(&cid.clone().map(|s| s.into_bytes())),
+        match &will {
+            Some((t, p, q, r)) => format!("{},{},{},{}", hex(t.as_bytes()), hex(p), q, *r as u8),
+            None => "none".to_string(),
+        },
+        opt_hex(&user.clone().map(|s| s.into_bytes())),
+        opt_hex(&pass),
+        opt_props(&props),
+        opt_props(&wprops)
+    );
+    let qos = |q: u8| Qos::try_from(q).unwrap();
+    if ver == 4 {
+        b_line(out, ver, pw, 0x10, &desc, || {
+            let mut b = v3::Connect::builder();
+            if let Some(c) = cs { b = b.clean_session(c); }
+            if let Some(c) = &cid { b = b.client_id(c.as_str())?; }
+            if let Some((t, p, q, r)) = &will { b = b.will_message(t.as_str(), p.clone(), qos(*q), *r)?; }
+            if let Some(u) = &user { b = b.user_name(u.as_str())?; }
+            if let Some(p) = &pass { b = b.password(p.clone())?; }
+            if let Some(k) = ka { b = b.keep_alive(k); }
+            b.build()
+        }, |_, body| v3::Connect::parse(body))
+    } else {
+        b_line(out, ver, pw, 0x10, &desc, || {
+            let mut b = v5::Connect::builder();
+            if let Some(c) = cs { b = b.clean_start(c); }
+            if let Some(c) = &cid { b = b.client_id(c.as_str())?; }
+            if let Some((t, p, q, r)) = &will { b = b.will_message(t.as_str(), p.clone(), qos(*q), *r)?; }
+            if let Some(u) = &user { b = b.user_name(u.as_str())?; }
+            if let Some(p) = &pass { b = b.password(p.clone())?; }
+            if let Some(k) = ka { b = b.keep_alive(k); }
+            if let Some(p) = &props { b = b.props(p.clone()); }
+            if let Some(p) = &wprops { b = b.will_props(p.clone()); }
+            b.build()
+        }, |_, body| v5::Connect::parse(body))
+    }
+}
+
+/// one PUBLISH builder case
+#[allow(clippy::too_many_arguments)]
+fn publish_case(
+    out: &mut dyn Write,
+    ver: u8,
+    pw: u8,
+    topic: Option<String>,
+    qos: Option<u8>,
+    dup: Option<bool>,
+    retain: Option<bool>,
+    pid: Option<u32>,
+    payload: Option<Vec<u8>>,
+    props: Option<Properties>,
+) -> Option<Vec<u8>> {
+    let desc = format!(
+        "topic={} qos={} dup={} retain={} pid={} payload={} props={}",
+        opt_hex(&topic.clone().map(|s| s.into_bytes())), opt(&qos), opt(&dup.map(|b| b as u8)),
+        opt(&retain.map(|b| b as u8)), opt(&pid), opt_hex(&payload), opt_props(&props)
+    );
+    with_pid!(pw, T => {
+        if ver == 4 {
+            b_line(out, ver, pw, 0x30, &desc, || {
+                let mut b = v3::GenericPublish::<T>::builder();
+                if let Some(t) = &topic { b = b.topic_name(t.as_str())?; }
+                if let Some(q) = qos { b = b.qos(Qos::try_from(q).unwrap()); }
+                if let Some(d) = dup { b = b.dup(d); }
+                if let Some(r) = retain { b = b.retain(r); }
+                if let Some(i) = pid { b = b.packet_id(i as T); }
+                if let Some(p) = &payload { b = b.payload(p.clone()); }
+                b.build()
+            }, |f, body| v3::GenericPublish::<T>::parse(f, Arc::from(body)))
+        } else {
+            b_line(out, ver, pw, 0x30, &desc, || {
+                let mut b = v5::GenericPublish::<T>::builder();
+                if let Some(t) = &topic { b = b.topic_name(t.as_str())?; }
+                if let Some(q) = qos { b = b.qos(Qos::try_from(q).unwrap()); }
+                if let Some(d) = dup { b = b.dup(d); }
+                if let Some(r) = retain { b = b.retain(r); }
+                if let Some(i) = pid { b = b.packet_id(i as T); }
+                if let Some(p) = &payload { b = b.payload(p.clone()); }
+                if let Some(p) = &props { b = b.props(p.clone()); }
+                b.build()
+            }, |f, body| v5::GenericPublish::<T>::parse(f, Arc::from(body)))
         }
+    })
+}
+
+/// one SUBSCRIBE builder case; every entry goes through `SubEntry::new(filter, opts)?`
+fn subscribe_case(out: &mut dyn Write, ver: u8, pw: u8, pid: Option<u32>, entries: Option<Vec<(String, u8)>>, props: Option<Properties>) -> Option<Vec<u8>> {
+    let desc = format!(
+        "pid={} entries={} props={}", opt(&pid),
+        match &entries { Some(es) => format!("{}:{}", es.len(), es.iter().map(|(t, o)| format!("{}/{}", hex(t.as_bytes()), o)).collect::<Vec<_>>().join(",")), None => "none".to_string() },
+        opt_props(&props)
+    );
+    let mk = |es: &Vec<(String, u8)>| -> Result<Vec<SubEntry>, MqttError> {
+        es.iter().map(|(t, o)| {
+            let so = SubOpts::new()
+                .set_qos(Qos::try_from(o & 3).unwrap())
+                .set_nl(o & 4 != 0)
+                .set_rap(o & 8 != 0)
+                .set_rh(RetainHandling::try_from((o >> 4) & 3).unwrap());
+            SubEntry::new(t.as_str(), so)
+        }).collect()
+    };
+    with_pid!(pw, T => {
+        if ver == 4 {
+            b_line(out, ver, pw, 0x82, &desc, || {
+                let mut b = v3::GenericSubscribe::<T>::builder();
+                if let Some(i) = pid { b = b.packet_id(i as T); }
+                if let Some(es) = &entries { b = b.entries(mk(es)?); }
+                b.build()
+            }, |_, body| v3::GenericSubscribe::<T>::parse(body))
+        } else {
+            b_line(out, ver, pw, 0x82, &desc, || {
+                let mut b = v5::GenericSubscribe::<T>::builder();
+                if let Some(i) = pid { b = b.packet_id(i as T); }
+                if let Some(es) = &entries { b = b.entries(mk(es)?); }
+                if let Some(p) = &props { b = b.props(p.clone()); }
+                b.build()
+            }, |_, body| v5::GenericSubscribe::<T>::parse(body))
+        }
+    })
+}
+
+/// one UNSUBSCRIBE builder case
+fn unsubscribe_case(out: &mut dyn Write, ver: u8, pw: u8, pid: Option<u32>, topics: Option<Vec<String>>, props: Option<Properties>) -> Option<Vec<u8>> {
+    let desc = format!(
+        "pid={} topics={} props={}", opt(&pid),
+        match &topics { Some(ts) => format!("{}:{}", ts.len(), ts.iter().map(|t| hex(t.as_bytes())).collect::<Vec<_>>().join(",")), None => "none".to_string() },
+        opt_props(&props)
+    );
+    with_pid!(pw, T => {
+        if ver == 4 {
+            b_line(out, ver, pw, 0xa2, &desc, || {
+                let mut b = v3::GenericUnsubscribe::<T>::builder();
+                if let Some(i) = pid { b = b.packet_id(i as T); }
+                if let Some(ts) = &topics { b = b.entries(ts.iter().map(|s| s.as_str()))?; }
+                b.build()
+            }, |_, body| v3::GenericUnsubscribe::<T>::parse(body))
+        } else {
+            b_line(out, ver, pw, 0xa2, &desc, || {
+                let mut b = v5::GenericUnsubscribe::<T>::builder();
+                if let Some(i) = pid { b = b.packet_id(i as T); }
+                if let Some(ts) = &topics { b = b.entries(ts.iter().map(|s| s.as_str()))?; }
+                if let Some(p) = &props { b = b.props(p.clone()); }
+                b.build()
+            }, |_, body| v5::GenericUnsubscribe::<T>::parse(body))
+        }
+    })
+}
+
+
+/// one builder case of the kinds with few setters: CONNACK (`sp`, `rc`, `props`), PUBACK…PUBCOMP
+/// (`pid`, `rc`, `props`), SUBACK / UNSUBACK (`pid`, `codes`, `props`), PINGREQ / PINGRESP /
+/// DISCONNECT v3.1.1 (none), DISCONNECT / AUTH v5.0 (`rc`, `props`); `rc` / `codes` must be valid
+/// discriminants of the enum the setter takes
+#[allow(clippy::too_many_arguments)]
+fn simple_case(out: &mut dyn Write, ver: u8, pw: u8, ty: u8, pid: Option<u32>, sp: Option<bool>, rc: Option<u8>, codes: Option<Vec<u8>>, props: Option<Properties>) -> Option<Vec<u8>> {
+    match (ver, ty) {
         (4, 2) => {
-            let sp = if may(rng, 9, 10) { Some(rng.chance(1, 2)) } else { None };
-            let rc = if may(rng, 9, 10) { Some(rng.below(6) as u8) } else { None };
             let desc = format!("sp={} rc={}", opt(&sp.map(|b| b as u8)), opt(&rc));
             b_line(out, ver, pw, 0x20, &desc, || {
                 let mut b = v3::Connack::builder();
@@ -981,10 +1117,6 @@ fn gen_case(rng: &mut Rng, ver: u8, pw: u8, ty: u8, big: bool, out: &mut dyn Wri
             }, |_, body| v3::Connack::parse(body))
         }
         (5, 2) => {
-            let sp = if may(rng, 9, 10) { Some(rng.chance(1, 2)) } else { None };
-            let codes = [0x00u8, 0x80, 0x81, 0x82, 0x83, 0x84, 0x85, 0x86, 0x87, 0x88, 0x89, 0x8a, 0x8c, 0x90, 0x95, 0x97, 0x99, 0x9a, 0x9b, 0x9c, 0x9d, 0x9f];
-            let rc = if may(rng, 9, 10) { Some(*rng.pick(&codes)) } else { None };
-            let props = if may(rng, 3, 4) { Some(gen_props(rng, &CONNACK_P, big)) } else { None };
             let desc = format!("sp={} rc={} props={}", opt(&sp.map(|b| b as u8)), opt(&rc), opt_props(&props));
             b_line(out, ver, pw, 0x20, &desc, || {
                 let mut b = v5::Connack::builder();
@@ -994,57 +1126,7 @@ fn gen_case(rng: &mut Rng, ver: u8, pw: u8, ty: u8, big: bool, out: &mut dyn Wri
                 b.build()
             }, |_, body| v5::Connack::parse(body))
         }
-        (_, 3) => {
-            let topic = if may(rng, 9, 10) { Some(gen_topic(rng, big)) } else { None };
-            let qos = if may(rng, 4, 5) { Some(rng.below(3) as u8) } else { None };
-            let dup = if may(rng, 1, 3) { Some(rng.chance(1, 2)) } else { None };
-            let retain = if may(rng, 1, 3) { Some(rng.chance(1, 2)) } else { None };
-            let want_pid = match qos { Some(q) if q > 0 => may(rng, 19, 20), _ => may(rng, 1, 20) };
-            let pid = if want_pid { Some(gen_pid(rng, pw)) } else { None };
-            let payload = if may(rng, 4, 5) {
-                let n = if big && may(rng, 1, 8) { 70000 } else { gen_len(rng, big) };
-                Some(gen_bytes(rng, n))
-            } else { None };
-            let props = if ver == 5 && may(rng, 3, 4) { Some(gen_props(rng, &PUBLISH_P, big)) } else { None };
-            let desc = format!(
-                "topic={} qos={} dup={} retain={} pid={} payload={} props={}",
-                opt_hex(&topic.clone().map(|s| s.into_bytes())), opt(&qos), opt(&dup.map(|b| b as u8)),
-                opt(&retain.map(|b| b as u8)), opt(&pid), opt_hex(&payload), opt_props(&props)
-            );
-            with_pid!(pw, T => {
-                if ver == 4 {
-                    b_line(out, ver, pw, 0x30, &desc, || {
-                        let mut b = v3::GenericPublish::<T>::builder();
-                        if let Some(t) = &topic { b = b.topic_name(t.as_str())?; }
-                        if let Some(q) = qos { b = b.qos(Qos::try_from(q).unwrap()); }
-                        if let Some(d) = dup { b = b.dup(d); }
-                        if let Some(r) = retain { b = b.retain(r); }
-                        if let Some(i) = pid { b = b.packet_id(i as T); }
-                        if let Some(p) = &payload { b = b.payload(p.clone()); }
-                        b.build()
-                    }, |f, body| v3::GenericPublish::<T>::parse(f, Arc::from(body)))
-                } else {
-                    b_line(out, ver, pw, 0x30, &desc, || {
-                        let mut b = v5::GenericPublish::<T>::builder();
-                        if let Some(t) = &topic { b = b.topic_name(t.as_str())?; }
-                        if let Some(q) = qos { b = b.qos(Qos::try_from(q).unwrap()); }
-                        if let Some(d) = dup { b = b.dup(d); }
-                        if let Some(r) = retain { b = b.retain(r); }
-                        if let Some(i) = pid { b = b.packet_id(i as T); }
-                        if let Some(p) = &payload { b = b.payload(p.clone()); }
-                        if let Some(p) = &props { b = b.props(p.clone()); }
-                        b.build()
-                    }, |f, body| v5::GenericPublish::<T>::parse(f, Arc::from(body)))
-                }
-            })
-        }
         (_, 4..=7) => {
-            let pid = if may(rng, 19, 20) { Some(gen_pid(rng, pw)) } else { None };
-            let a_codes = [0x00u8, 0x10, 0x80, 0x83, 0x87, 0x90, 0x91, 0x97, 0x99];
-            let r_codes = [0x00u8, 0x92];
-            let codes: &[u8] = if ty <= 5 { &a_codes } else { &r_codes };
-            let rc = if may(rng, 2, 3) { Some(*rng.pick(codes)) } else { None };
-            let props = if ver == 5 && (rc.is_some() || may(rng, 1, 10)) && may(rng, 2, 3) { Some(gen_props(rng, &ACK_P, big)) } else { None };
             let desc = format!("pid={} rc={} props={}", opt(&pid), opt(&rc), opt_props(&props));
             macro_rules! ack {
                 ($m:ident, $G:ident, $RC:ident, $fh:expr, $has_props:tt) => {
@@ -1070,60 +1152,7 @@ fn gen_case(rng: &mut Rng, ver: u8, pw: u8, ty: u8, big: bool, out: &mut dyn Wri
                 _ => ack!(v5, GenericPubcomp, PubcompReasonCode, 0x70, true),
             }
         }
-        (_, 8) => {
-            let pid = if may(rng, 19, 20) { Some(gen_pid(rng, pw)) } else { None };
-            let n = match rng.below(10) { 0 => 0, 1..=5 => 1, 6..=8 => 2 + rng.below(3), _ => if big { 300 } else { 12 } };
-            let entries: Option<Vec<(String, u8)>> = if may(rng, 19, 20) {
-                Some((0..n).map(|_| {
-                    let o = (rng.below(3) | (rng.below(2) << 2) | (rng.below(2) << 3) | (rng.below(3) << 4)) as u8;
-                    (gen_filter(rng, big && n < 5), if rng.chance(1, 3) { o & 3 } else { o })
-                }).collect())
-            } else { None };
-            let props = if ver == 5 && may(rng, 2, 3) { Some(gen_props(rng, &SUBSCRIBE_P, big)) } else { None };
-            let desc = format!(
-                "pid={} entries={} props={}", opt(&pid),
-                match &entries { Some(es) => { let mut v = vec![]; for (t, o) in es { v.extend((t.len() as u16).to_be_bytes()); v.extend(t.as_bytes()); v.push(*o); } format!("{}:{}", es.len(), hex(&v)) } None => "none".to_string() },
-                opt_props(&props)
-            );
-            let mk = |es: &Vec<(String, u8)>| -> Result<Vec<SubEntry>, MqttError> {
-                es.iter().map(|(t, o)| {
-                    let so = SubOpts::new()
-                        .set_qos(Qos::try_from(o & 3).unwrap())
-                        .set_nl(o & 4 != 0)
-                        .set_rap(o & 8 != 0)
-                        .set_rh(RetainHandling::try_from((o >> 4) & 3).unwrap());
-                    SubEntry::new(t.as_str(), so)
-                }).collect()
-            };
-            with_pid!(pw, T => {
-                if ver == 4 {
-                    b_line(out, ver, pw, 0x82, &desc, || {
-                        let mut b = v3::GenericSubscribe::<T>::builder();
-                        if let Some(i) = pid { b = b.packet_id(i as T); }
-                        if let Some(es) = &entries { b = b.entries(mk(es)?); }
-                        b.build()
-                    }, |_, body| v3::GenericSubscribe::<T>::parse(body))
-                } else {
-                    b_line(out, ver, pw, 0x82, &desc, || {
-                        let mut b = v5::GenericSubscribe::<T>::builder();
-                        if let Some(i) = pid { b = b.packet_id(i as T); }
-                        if let Some(es) = &entries { b = b.entries(mk(es)?); }
-                        if let Some(p) = &props { b = b.props(p.clone()); }
-                        b.build()
-                    }, |_, body| v5::GenericSubscribe::<T>::parse(body))
-                }
-            })
-        }
         (_, 9) | (5, 11) => {
-            let pid = if may(rng, 19, 20) { Some(gen_pid(rng, pw)) } else { None };
-            let n = match rng.below(10) { 0 => 0, 1..=5 => 1, 6..=8 => 2 + rng.below(3), _ => if big { 1000 } else { 20 } };
-            let table: &[u8] = match (ver, ty) {
-                (4, _) => &[0, 1, 2, 0x80],
-                (5, 9) => &[0x00, 0x01, 0x02, 0x80, 0x83, 0x87, 0x8f, 0x91, 0x97, 0x9e, 0xa1, 0xa2],
-                _ => &[0x00, 0x11, 0x80, 0x83, 0x87, 0x8f, 0x91],
-            };
-            let codes: Option<Vec<u8>> = if may(rng, 19, 20) { Some((0..n).map(|_| *rng.pick(table)).collect()) } else { None };
-            let props = if ver == 5 && may(rng, 2, 3) { Some(gen_props(rng, &ACK_P, big)) } else { None };
             let desc = format!("pid={} codes={} props={}", opt(&pid), opt_hex(&codes), opt_props(&props));
             with_pid!(pw, T => {
                 match (ver, ty) {
@@ -1150,37 +1179,7 @@ fn gen_case(rng: &mut Rng, ver: u8, pw: u8, ty: u8, big: bool, out: &mut dyn Wri
                 }
             })
         }
-        (_, 10) => {
-            let pid = if may(rng, 19, 20) { Some(gen_pid(rng, pw)) } else { None };
-            let n = match rng.below(10) { 0 => 0, 1..=5 => 1, 6..=8 => 2 + rng.below(3), _ => if big { 300 } else { 12 } };
-            let topics: Option<Vec<String>> = if may(rng, 19, 20) { Some((0..n).map(|_| gen_filter(rng, big && n < 5)).collect()) } else { None };
-            let props = if ver == 5 && may(rng, 2, 3) { Some(gen_props(rng, &UNSUBSCRIBE_P, big)) } else { None };
-            let desc = format!(
-                "pid={} topics={} props={}", opt(&pid),
-                match &topics { Some(ts) => { let mut v = vec![]; for t in ts { v.extend((t.len() as u16).to_be_bytes()); v.extend(t.as_bytes()); } format!("{}:{}", ts.len(), hex(&v)) } None => "none".to_string() },
-                opt_props(&props)
-            );
-            with_pid!(pw, T => {
-                if ver == 4 {
-                    b_line(out, ver, pw, 0xa2, &desc, || {
-                        let mut b = v3::GenericUnsubscribe::<T>::builder();
-                        if let Some(i) = pid { b = b.packet_id(i as T); }
-                        if let Some(ts) = &topics { b = b.entries(ts.iter().map(|s| s.as_str()))?; }
-                        b.build()
-                    }, |_, body| v3::GenericUnsubscribe::<T>::parse(body))
-                } else {
-                    b_line(out, ver, pw, 0xa2, &desc, || {
-                        let mut b = v5::GenericUnsubscribe::<T>::builder();
-                        if let Some(i) = pid { b = b.packet_id(i as T); }
-                        if let Some(ts) = &topics { b = b.entries(ts.iter().map(|s| s.as_str()))?; }
-                        if let Some(p) = &props { b = b.props(p.clone()); }
-                        b.build()
-                    }, |_, body| v5::GenericUnsubscribe::<T>::parse(body))
-                }
-            })
-        }
         (4, 11) => {
-            let pid = if may(rng, 19, 20) { Some(gen_pid(rng, pw)) } else { None };
             let desc = format!("pid={}", opt(&pid));
             with_pid!(pw, T => b_line(out, ver, pw, 0xb0, &desc, || {
                 let mut b = v3::GenericUnsuback::<T>::builder();
@@ -1194,9 +1193,6 @@ fn gen_case(rng: &mut Rng, ver: u8, pw: u8, ty: u8, big: bool, out: &mut dyn Wri
         (5, 12) => b_line(out, ver, pw, 0xc0, "-", || v5::Pingreq::builder().build(), |_, b| v5::Pingreq::parse(b)),
         (5, 13) => b_line(out, ver, pw, 0xd0, "-", || v5::Pingresp::builder().build(), |_, b| v5::Pingresp::parse(b)),
         (5, 14) => {
-            let codes = [0x00u8, 0x04, 0x80, 0x81, 0x82, 0x83, 0x87, 0x89, 0x8b, 0x8d, 0x8e, 0x8f, 0x90, 0x93, 0x94, 0x95, 0x96, 0x97, 0x98, 0x99, 0x9a, 0x9b, 0x9c, 0x9d, 0x9e, 0x9f, 0xa0, 0xa1, 0xa2];
-            let rc = if may(rng, 3, 4) { Some(*rng.pick(&codes)) } else { None };
-            let props = if (rc.is_some() || may(rng, 1, 10)) && may(rng, 2, 3) { Some(gen_props(rng, &DISCONNECT_P, big)) } else { None };
             let desc = format!("rc={} props={}", opt(&rc), opt_props(&props));
             b_line(out, ver, pw, 0xe0, &desc, || {
                 let mut b = v5::Disconnect::builder();
@@ -1204,6 +1200,116 @@ fn gen_case(rng: &mut Rng, ver: u8, pw: u8, ty: u8, big: bool, out: &mut dyn Wri
                 if let Some(p) = &props { b = b.props(p.clone()); }
                 b.build()
             }, |_, body| v5::Disconnect::parse(body))
+        }
+        (5, 15) => {
+            let desc = format!("rc={} props={}", opt(&rc), opt_props(&props));
+            b_line(out, ver, pw, 0xf0, &desc, || {
+                let mut b = v5::Auth::builder();
+                if let Some(r) = rc { b = b.reason_code(pick_rc_from::<AuthReasonCode>(r)); }
+                if let Some(p) = &props { b = b.props(p.clone()); }
+                b.build()
+            }, |_, body| v5::Auth::parse(body))
+        }
+        _ => None,
+    }
+}
+
+/// generates one builder case of packet type `ty` and returns its frame (if accepted)
+fn gen_case(rng: &mut Rng, ver: u8, pw: u8, ty: u8, big: bool, out: &mut dyn Write) -> Option<Vec<u8>> {
+    let may = |rng: &mut Rng, num: u64, den: u64| rng.chance(num, den);
+    match (ver, ty) {
+        (_, 1) => {
+            let cs = if may(rng, 2, 3) { Some(rng.chance(1, 2)) } else { None };
+            let ka = if may(rng, 2, 3) { Some(rng.next() as u16) } else { None };
+            let cid = if may(rng, 4, 5) { { let n = gen_len(rng, big); Some(gen_string(rng, n)) } } else { None };
+            let will = if may(rng, 1, 2) {
+                let n = gen_len(rng, big);
+                Some((gen_topic(rng, big), gen_bytes(rng, n), rng.below(3) as u8, rng.chance(1, 2)))
+            } else {
+                None
+            };
+            let user = if may(rng, 1, 2) { { let n = gen_len(rng, big); Some(gen_string(rng, n)) } } else { None };
+            let pass = if may(rng, 2, 5) { { let n = gen_len(rng, big); Some(gen_bytes(rng, n)) } } else { None };
+            let props = if ver == 5 && may(rng, 2, 3) { Some(gen_props(rng, &CONNECT_P, big)) } else { None };
+            let wprops = if ver == 5 && (will.is_some() || may(rng, 1, 10)) && may(rng, 2, 3) { Some(gen_props(rng, &WILL_P, big)) } else { None };
+            connect_case(out, ver, pw, cs, ka, cid, will, user, pass, props, wprops)
+        }
+        (4, 2) => {
+            let sp = if may(rng, 9, 10) { Some(rng.chance(1, 2)) } else { None };
+            let rc = if may(rng, 9, 10) { Some(rng.below(6) as u8) } else { None };
+            simple_case(out, ver, pw, ty, None, sp, rc, None, None)
+        }
+        (5, 2) => {
+            let sp = if may(rng, 9, 10) { Some(rng.chance(1, 2)) } else { None };
+            let codes = [0x00u8, 0x80, 0x81, 0x82, 0x83, 0x84, 0x85, 0x86, 0x87, 0x88, 0x89, 0x8a, 0x8c, 0x90, 0x95, 0x97, 0x99, 0x9a, 0x9b, 0x9c, 0x9d, 0x9f];
+            let rc = if may(rng, 9, 10) { Some(*rng.pick(&codes)) } else { None };
+            let props = if may(rng, 3, 4) { Some(gen_props(rng, &CONNACK_P, big)) } else { None };
+            simple_case(out, ver, pw, ty, None, sp, rc, None, props)
+        }
+        (_, 3) => {
+            let topic = if may(rng, 9, 10) { Some(gen_topic(rng, big)) } else { None };
+            let qos = if may(rng, 4, 5) { Some(rng.below(3) as u8) } else { None };
+            let dup = if may(rng, 1, 3) { Some(rng.chance(1, 2)) } else { None };
+            let retain = if may(rng, 1, 3) { Some(rng.chance(1, 2)) } else { None };
+            let want_pid = match qos { Some(q) if q > 0 => may(rng, 19, 20), _ => may(rng, 1, 20) };
+            let pid = if want_pid { Some(gen_pid(rng, pw)) } else { None };
+            let payload = if may(rng, 4, 5) {
+                let n = if big && may(rng, 1, 8) { 70000 } else { gen_len(rng, big) };
+                Some(gen_bytes(rng, n))
+            } else { None };
+            let props = if ver == 5 && may(rng, 3, 4) { Some(gen_props(rng, &PUBLISH_P, big)) } else { None };
+            publish_case(out, ver, pw, topic, qos, dup, retain, pid, payload, props)
+        }
+        (_, 4..=7) => {
+            let pid = if may(rng, 19, 20) { Some(gen_pid(rng, pw)) } else { None };
+            let a_codes = [0x00u8, 0x10, 0x80, 0x83, 0x87, 0x90, 0x91, 0x97, 0x99];
+            let r_codes = [0x00u8, 0x92];
+            let codes: &[u8] = if ty <= 5 { &a_codes } else { &r_codes };
+            let rc = if may(rng, 2, 3) { Some(*rng.pick(codes)) } else { None };
+            let props = if ver == 5 && (rc.is_some() || may(rng, 1, 10)) && may(rng, 2, 3) { Some(gen_props(rng, &ACK_P, big)) } else { None };
+            simple_case(out, ver, pw, ty, pid, None, rc, None, props)
+        }
+        (_, 8) => {
+            let pid = if may(rng, 19, 20) { Some(gen_pid(rng, pw)) } else { None };
+            let n = match rng.below(10) { 0 => 0, 1..=5 => 1, 6..=8 => 2 + rng.below(3), _ => if big { 300 } else { 12 } };
+            let entries: Option<Vec<(String, u8)>> = if may(rng, 19, 20) {
+                Some((0..n).map(|_| {
+                    let o = (rng.below(3) | (rng.below(2) << 2) | (rng.below(2) << 3) | (rng.below(3) << 4)) as u8;
+                    (gen_filter(rng, big && n < 5), if rng.chance(1, 3) { o & 3 } else { o })
+                }).collect())
+            } else { None };
+            let props = if ver == 5 && may(rng, 2, 3) { Some(gen_props(rng, &SUBSCRIBE_P, big)) } else { None };
+            subscribe_case(out, ver, pw, pid, entries, props)
+        }
+        (_, 9) | (5, 11) => {
+            let pid = if may(rng, 19, 20) { Some(gen_pid(rng, pw)) } else { None };
+            let n = match rng.below(10) { 0 => 0, 1..=5 => 1, 6..=8 => 2 + rng.below(3), _ => if big { 1000 } else { 20 } };
+            let table: &[u8] = match (ver, ty) {
+                (4, _) => &[0, 1, 2, 0x80],
+                (5, 9) => &[0x00, 0x01, 0x02, 0x80, 0x83, 0x87, 0x8f, 0x91, 0x97, 0x9e, 0xa1, 0xa2],
+                _ => &[0x00, 0x11, 0x80, 0x83, 0x87, 0x8f, 0x91],
+            };
+            let codes: Option<Vec<u8>> = if may(rng, 19, 20) { Some((0..n).map(|_| *rng.pick(table)).collect()) } else { None };
+            let props = if ver == 5 && may(rng, 2, 3) { Some(gen_props(rng, &ACK_P, big)) } else { None };
+            simple_case(out, ver, pw, ty, pid, None, None, codes, props)
+        }
+        (_, 10) => {
+            let pid = if may(rng, 19, 20) { Some(gen_pid(rng, pw)) } else { None };
+            let n = match rng.below(10) { 0 => 0, 1..=5 => 1, 6..=8 => 2 + rng.below(3), _ => if big { 300 } else { 12 } };
+            let topics: Option<Vec<String>> = if may(rng, 19, 20) { Some((0..n).map(|_| gen_filter(rng, big && n < 5)).collect()) } else { None };
+            let props = if ver == 5 && may(rng, 2, 3) { Some(gen_props(rng, &UNSUBSCRIBE_P, big)) } else { None };
+            unsubscribe_case(out, ver, pw, pid, topics, props)
+        }
+        (4, 11) => {
+            let pid = if may(rng, 19, 20) { Some(gen_pid(rng, pw)) } else { None };
+            simple_case(out, ver, pw, ty, pid, None, None, None, None)
+        }
+        (4, 12..=14) | (5, 12..=13) => simple_case(out, ver, pw, ty, None, None, None, None, None),
+        (5, 14) => {
+            let codes = [0x00u8, 0x04, 0x80, 0x81, 0x82, 0x83, 0x87, 0x89, 0x8b, 0x8d, 0x8e, 0x8f, 0x90, 0x93, 0x94, 0x95, 0x96, 0x97, 0x98, 0x99, 0x9a, 0x9b, 0x9c, 0x9d, 0x9e, 0x9f, 0xa0, 0xa1, 0xa2];
+            let rc = if may(rng, 3, 4) { Some(*rng.pick(&codes)) } else { None };
+            let props = if (rc.is_some() || may(rng, 1, 10)) && may(rng, 2, 3) { Some(gen_props(rng, &DISCONNECT_P, big)) } else { None };
+            simple_case(out, ver, pw, ty, None, None, rc, None, props)
         }
         (5, 15) => {
             let rc = if may(rng, 4, 5) { Some(*rng.pick(&[0x00u8, 0x18, 0x19])) } else { None };
@@ -1214,13 +1320,7 @@ fn gen_case(rng: &mut Rng, ver: u8, pw: u8, ty: u8, big: bool, out: &mut dyn Wri
                 }
                 Some(p)
             } else { None };
-            let desc = format!("rc={} props={}", opt(&rc), opt_props(&props));
-            b_line(out, ver, pw, 0xf0, &desc, || {
-                let mut b = v5::Auth::builder();
-                if let Some(r) = rc { b = b.reason_code(pick_rc_from::<AuthReasonCode>(r)); }
-                if let Some(p) = &props { b = b.props(p.clone()); }
-                b.build()
-            }, |_, body| v5::Auth::parse(body))
+            simple_case(out, ver, pw, ty, None, None, rc, None, props)
         }
         _ => None,
     }
@@ -1559,12 +1659,83 @@ fn directed_builders(out: &mut dyn Write) {
     // UNSUBACK v3.1.1 with a 32-bit packet id: remaining length = id width since 384faed
     b_line(out, 4, 4, 0xb0, "pid=1", || v3::GenericUnsuback::<u32>::builder().packet_id(1u32).build(), |_, body| v3::GenericUnsuback::<u32>::parse(body));
     b_line(out, 4, 2, 0xb0, "pid=1", || v3::GenericUnsuback::<u16>::builder().packet_id(1u16).build(), |_, body| v3::GenericUnsuback::<u16>::parse(body));
+    // setters that fail themselves: a string / binary of 65536 bytes (one more than fits), next to
+    // the longest one that fits; and the order of the checks where two of them fail with
+    // different errors
+    let long = "a".repeat(65536);
+    let max = "a".repeat(65535);
+    let up = |k: &str, v: &str| Property::UserProperty(UserProperty::new(k, v).unwrap());
+    let bad_props: Properties = vec![Property::ReceiveMaximum(ReceiveMaximum::new(1).unwrap())];
+    for ver in [4u8, 5] {
+        for s in [&long, &max] {
+            connect_case(out, ver, 2, None, None, Some(s.clone()), None, None, None, None, None);
+            connect_case(out, ver, 2, Some(false), Some(1), Some("c".into()), Some((s.clone(), vec![1], 1, true)), None, None, None, None);
+            connect_case(out, ver, 2, None, None, None, Some(("w".into(), s.clone().into_bytes(), 2, false)), None, None, None, None);
+            connect_case(out, ver, 2, None, None, None, None, Some(s.clone()), None, None, None);
+            connect_case(out, ver, 2, None, None, None, None, Some("u".into()), Some(s.clone().into_bytes()), None, None);
+            // password without user name (ProtocolError) after a setter that fails / does not fail
+            connect_case(out, ver, 2, None, None, Some(s.clone()), None, None, Some(vec![1]), None, None);
+            for pw in [2u8, 4] {
+                publish_case(out, ver, pw, Some(s.clone()), Some(1), None, None, Some(1), Some(vec![1]), None);
+                // too long AND no packet id / empty entry list: the setter's error comes first
+                subscribe_case(out, ver, pw, None, Some(vec![("t".into(), 1), (s.clone(), 0)]), None);
+                subscribe_case(out, ver, pw, Some(1), Some(vec![(s.clone(), 2)]), None);
+                unsubscribe_case(out, ver, pw, None, Some(vec!["t".into(), s.clone()]), None);
+                unsubscribe_case(out, ver, pw, Some(1), Some(vec![s.clone()]), None);
+            }
+        }
+        // every combination of the CONNECT flag setters
+        for cs in [None, Some(false), Some(true)] {
+            for will in [None, Some(0u8), Some(1), Some(2)] {
+                for retain in [false, true] {
+                    for user in [false, true] {
+                        for pass in [false, true] {
+                            if will.is_none() && retain {
+                                continue;
+                            }
+                            connect_case(out, ver, 2, cs, Some(0x1234), Some("id".into()), will.map(|q| ("w/t".to_string(), vec![0xff, 0x00], q, retain)),
+                                if user { Some("u".into()) } else { None }, if pass { Some(vec![0x70]) } else { None }, None, None);
+                        }
+                    }
+                }
+            }
+        }
+        // every combination of the PUBLISH header setters with / without a packet id
+        for qos in [None, Some(0u8), Some(1), Some(2)] {
+            for dup in [None, Some(false), Some(true)] {
+                for retain in [None, Some(false), Some(true)] {
+                    for pid in [None, Some(0u32), Some(7)] {
+                        publish_case(out, ver, 2, Some("t".into()), qos, dup, retain, pid, None, None);
+                    }
+                }
+            }
+        }
+    }
+    // v5.0: which check comes first when two fail with different errors
+    publish_case(out, 5, 2, None, Some(1), None, None, None, None, Some(bad_props.clone())); // props (ProtocolError) before topic / id (MalformedPacket)
+    publish_case(out, 5, 2, Some("a/#".into()), None, None, None, None, None, Some(bad_props.clone())); // setter (MalformedPacket) before props
+    publish_case(out, 5, 2, Some(String::new()), None, None, None, None, None, Some(vec![Property::TopicAlias(TopicAlias::new(1).unwrap())]));
+    publish_case(out, 5, 2, None, None, None, None, None, None, Some(vec![Property::TopicAlias(TopicAlias::new(1).unwrap())]));
+    publish_case(out, 5, 2, Some(String::new()), None, None, None, None, None, Some(vec![up("k", "v")]));
+    subscribe_case(out, 5, 2, Some(0), None, Some(bad_props.clone())); // id 0 (MalformedPacket) before entries (ProtocolError) before props
+    subscribe_case(out, 5, 2, Some(1), Some(vec![]), Some(bad_props.clone())); // no entries (ProtocolError), props not reached
+    subscribe_case(out, 5, 2, Some(1), Some(vec![("$share/g".into(), 0)]), Some(bad_props.clone())); // share name (MalformedPacket) before props
+    subscribe_case(out, 5, 2, Some(1), Some(vec![("t".into(), 0)]), Some(bad_props.clone())); // props (ProtocolError)
+    unsubscribe_case(out, 5, 2, None, Some(vec!["$share//t".into()]), Some(bad_props.clone())); // the setter validates share names
+    unsubscribe_case(out, 5, 2, Some(1), Some(vec![]), Some(bad_props.clone()));
+    unsubscribe_case(out, 5, 2, Some(1), Some(vec!["t".into()]), Some(bad_props.clone()));
+    connect_case(out, 5, 2, None, None, None, None, None, Some(vec![1]), Some(bad_props.clone()), None); // password without user name before props
+    connect_case(out, 5, 2, None, None, None, None, None, None, Some(vec![Property::TopicAlias(TopicAlias::new(1).unwrap())]), Some(vec![up("k", "v")])); // will props without will before props
+    connect_case(out, 5, 2, None, None, None, None, None, None, None, Some(vec![])); // empty will props without will: accepted
+    connect_case(out, 5, 2, None, None, None, Some(("w".into(), vec![], 0, false)), None, None, None, Some(bad_props.clone()));
     writeln!(out, "END").unwrap();
 }
 
 /// the post-construction operations of a v5.0 PUBLISH (used by the connection for automatic alias
 /// mapping / replacement and store regulation): the result must be the packet a builder makes
 /// from the derived fields, so it is reported as a `B` case of those fields
+const OP_NAMES: [&str; 4] = ["add_topic_alias", "remove_topic_add_topic_alias", "remove_topic_alias", "remove_topic_alias_add_topic"];
+
 fn publish_op_case(out: &mut dyn Write, topic: &str, qos: u8, payload: &[u8], props: &Properties, op: u8, alias: u16, new_topic: &str) {
     let base_has_alias = props.iter().any(|p| matches!(p, Property::TopicAlias(_)));
     let without: Properties = props.iter().filter(|p| !matches!(p, Property::TopicAlias(_))).cloned().collect();
@@ -1578,8 +1749,22 @@ fn publish_op_case(out: &mut dyn Write, topic: &str, qos: u8, payload: &[u8], pr
         3 if topic.is_empty() && base_has_alias => (new_topic.to_string(), without), // remove_topic_alias_add_topic
         _ => return,
     };
+    // the operation applies to a packet a builder accepted; a base call the builder refuses is an
+    // ordinary builder case (its error belongs to the base call, not to the derived fields)
+    let base_ok = {
+        let mut b = v5::GenericPublish::<u16>::builder().qos(Qos::try_from(qos).unwrap()).payload(payload.to_vec()).props(props.clone());
+        if qos > 0 {
+            b = b.packet_id(1u16);
+        }
+        catch_unwind(AssertUnwindSafe(|| b.topic_name(topic).and_then(|b| b.build()).is_ok())).unwrap_or(false)
+    };
+    if !base_ok {
+        publish_case(out, 5, 2, Some(topic.to_string()), Some(qos), None, None, if qos > 0 { Some(1) } else { None }, Some(payload.to_vec()), Some(props.clone()));
+        return;
+    }
     let desc = format!(
-        "topic={} qos={} dup=none retain=none pid={} payload={} props={}",
+        "op={}/{}/{}/{}/{} topic={} qos={} dup=none retain=none pid={} payload={} props={}",
+        OP_NAMES[op as usize], alias, hex(new_topic.as_bytes()), hex(topic.as_bytes()), props_hex(props),
         hex(rtopic.as_bytes()), qos, if qos > 0 { "1".to_string() } else { "none".to_string() }, hex(payload), props_hex(&rprops)
     );
     let (t, pl, ps, nt) = (topic.to_string(), payload.to_vec(), props.clone(), new_topic.to_string());
@@ -1617,6 +1802,11 @@ fn publish_ops(rng: &mut Rng, thorough: bool, out: &mut dyn Write) {
             }
         }
     }
+    // directed: the topic handed to `remove_topic_alias_add_topic` is empty / has a wildcard / is too long
+    for nt in ["", "a/#", "+", "x"] {
+        publish_op_case(out, "", 1, b"p", &vec![Property::TopicAlias(TopicAlias::new(3).unwrap())], 3, 7, nt);
+    }
+    publish_op_case(out, "", 0, b"p", &vec![Property::TopicAlias(TopicAlias::new(3).unwrap())], 3, 7, &"a".repeat(65536));
     // random
     for i in 0..(if thorough { 4000 } else { 400 }) {
         let big = i % 8 == 7;
@@ -1629,6 +1819,28 @@ fn publish_ops(rng: &mut Rng, thorough: bool, out: &mut dyn Write) {
         publish_op_case(out, &topic, rng.below(3) as u8, &payload, &props, rng.below(4) as u8, 1 + rng.below(65535) as u16, &nt);
     }
     writeln!(out, "END").unwrap();
+}
+
+/// opt-in, not part of any tier (allocates 256 MiB per case; the line is not meant for the driver:
+/// `payload=z<n>` stands for n zero bytes): `validate()` of the PUBLISH builders bounds the
+/// payload (<= 268435455), not the Remaining Length
+pub fn big_payload(out: &mut dyn Write) {
+    for (ver, n) in [(4u8, 268_435_455usize), (5, 268_435_455), (4, 268_435_452), (5, 268_435_451), (4, 268_435_456)] {
+        let payload = vec![0u8; n];
+        let r = catch_unwind(AssertUnwindSafe(|| {
+            if ver == 4 {
+                v3::GenericPublish::<u16>::builder().topic_name("t").and_then(|b| b.payload(payload).build()).map(|p| p.size())
+            } else {
+                v5::GenericPublish::<u16>::builder().topic_name("t").and_then(|b| b.payload(payload).build()).map(|p| p.size())
+            }
+        }));
+        let res = match r {
+            Err(_) => "PANIC".to_string(),
+            Ok(Ok(size)) => format!("ok size={size}"),
+            Ok(Err(e)) => format!("err {e:?}"),
+        };
+        writeln!(out, "B {ver} 2 30 topic=74 qos=none dup=none retain=none pid=none payload=z{n} props=none = {res}").unwrap();
+    }
 }
 
 pub fn generate(tier: &str, seed: u64, out: &mut dyn Write) {
@@ -1672,6 +1884,129 @@ pub fn generate(tier: &str, seed: u64, out: &mut dyn Write) {
     eprintln!("codec: builder cases {n}");
 }
 
+
+/// re-executes the builder call described by the `<k=v …>` tokens of a `B` line; `false` if the
+/// tokens cannot be read
+fn replay_b(ver: u8, pw: u8, ty: u8, toks: &[&str], out: &mut dyn Write) -> bool {
+    let get = |k: &str| -> Option<&str> { toks.iter().find_map(|t| t.strip_prefix(k).and_then(|r| r.strip_prefix('='))) };
+    // Ok(None): `none`; Err: unreadable
+    fn o<T>(v: Option<&str>, f: impl Fn(&str) -> Option<T>) -> Result<Option<T>, ()> {
+        match v {
+            None => Err(()),
+            Some("none") => Ok(None),
+            Some(x) => f(x).map(Some).ok_or(()),
+        }
+    }
+    fn hexs(x: &str) -> Option<Vec<u8>> {
+        if x == "-" {
+            return Some(vec![]);
+        }
+        if x.len() % 2 != 0 || !x.bytes().all(|c| c.is_ascii_hexdigit()) {
+            return None;
+        }
+        Some(unhex(x))
+    }
+    fn strs(x: &str) -> Option<String> {
+        hexs(x).and_then(|b| String::from_utf8(b).ok())
+    }
+    fn flag(x: &str) -> Option<bool> {
+        match x {
+            "0" => Some(false),
+            "1" => Some(true),
+            _ => None,
+        }
+    }
+    fn props(x: &str) -> Option<Properties> {
+        let b = hexs(x)?;
+        let mut buf = nonminimal(b.len(), 0);
+        buf.extend(&b);
+        match Properties::parse(&buf) {
+            Ok((p, n)) if n == buf.len() => Some(p),
+            _ => None,
+        }
+    }
+    fn absent_or_none(v: Option<&str>) -> bool {
+        matches!(v, None | Some("none"))
+    }
+    let r: Result<(), ()> = (|| {
+        if ver == 4 && !(absent_or_none(get("props")) && absent_or_none(get("wprops"))) {
+            return Err(());
+        }
+        let ps = |k: &str| if ver == 5 { o(get(k), props) } else { Ok(None) };
+        match ty {
+            1 => {
+                let will = o(get("will"), |x| {
+                    let f: Vec<&str> = x.split(',').collect();
+                    if f.len() != 4 {
+                        return None;
+                    }
+                    Some((strs(f[0])?, hexs(f[1])?, f[2].parse::<u8>().ok().filter(|q| *q <= 2)?, flag(f[3])?))
+                })?;
+                connect_case(out, ver, pw, o(get("cs"), flag)?, o(get("ka"), |x| x.parse().ok())?, o(get("cid"), strs)?, will,
+                    o(get("user"), strs)?, o(get("pass"), hexs)?, ps("props")?, ps("wprops")?);
+            }
+            3 => {
+                let qos = o(get("qos"), |x| x.parse::<u8>().ok().filter(|q| *q <= 2))?;
+                let payload = o(get("payload"), hexs)?;
+                if let Some(op) = get("op") {
+                    let f: Vec<&str> = op.split('/').collect();
+                    if f.len() != 5 || ver != 5 || pw != 2 {
+                        return Err(());
+                    }
+                    let opn = OP_NAMES.iter().position(|n| *n == f[0]).ok_or(())? as u8;
+                    let alias: u16 = f[1].parse().map_err(|_| ())?;
+                    publish_op_case(out, &strs(f[3]).ok_or(())?, qos.ok_or(())?, &payload.ok_or(())?, &props(f[4]).ok_or(())?, opn, alias, &strs(f[2]).ok_or(())?);
+                } else {
+                    publish_case(out, ver, pw, o(get("topic"), strs)?, qos, o(get("dup"), flag)?, o(get("retain"), flag)?,
+                        o(get("pid"), |x| x.parse().ok())?, payload, ps("props")?);
+                }
+            }
+            8 => {
+                let entries = o(get("entries"), |x| {
+                    let (n, rest) = x.split_once(':')?;
+                    let v: Option<Vec<(String, u8)>> = if rest.is_empty() { Some(vec![]) } else {
+                        rest.split(',').map(|it| { let (t, oo) = it.split_once('/')?; Some((strs(t)?, oo.parse().ok()?)) }).collect()
+                    };
+                    v.filter(|v| Some(v.len()) == n.parse().ok() && v.iter().all(|(_, oo)| oo & 0xc0 == 0 && oo & 3 != 3 && (oo >> 4) & 3 != 3))
+                })?;
+                subscribe_case(out, ver, pw, o(get("pid"), |x| x.parse().ok())?, entries, ps("props")?);
+            }
+            10 => {
+                let topics = o(get("topics"), |x| {
+                    let (n, rest) = x.split_once(':')?;
+                    let v: Option<Vec<String>> = if rest.is_empty() { Some(vec![]) } else { rest.split(',').map(strs).collect() };
+                    v.filter(|v| Some(v.len()) == n.parse().ok())
+                })?;
+                unsubscribe_case(out, ver, pw, o(get("pid"), |x| x.parse().ok())?, topics, ps("props")?);
+            }
+            2 => {
+                simple_case(out, ver, pw, ty, None, o(get("sp"), flag)?, o(get("rc"), |x| x.parse().ok())?, None, ps("props")?);
+            }
+            4..=7 => {
+                simple_case(out, ver, pw, ty, o(get("pid"), |x| x.parse().ok())?, None, o(get("rc"), |x| x.parse().ok())?, None, ps("props")?);
+            }
+            9 | 11 if !(ver == 4 && ty == 11) => {
+                simple_case(out, ver, pw, ty, o(get("pid"), |x| x.parse().ok())?, None, None, o(get("codes"), hexs)?, ps("props")?);
+            }
+            11 => {
+                simple_case(out, ver, pw, ty, o(get("pid"), |x| x.parse().ok())?, None, None, None, None);
+            }
+            12 | 13 => {
+                simple_case(out, ver, pw, ty, None, None, None, None, None);
+            }
+            14 if ver == 4 => {
+                simple_case(out, ver, pw, ty, None, None, None, None, None);
+            }
+            14 | 15 if ver == 5 => {
+                simple_case(out, ver, pw, ty, None, None, o(get("rc"), |x| x.parse().ok())?, None, ps("props")?);
+            }
+            _ => return Err(()),
+        }
+        Ok(())
+    })();
+    r.is_ok()
+}
+
 /// re-executes the `P` and `B`-derived cases of a trace on the implementation
 pub fn replay(text: &str, out: &mut dyn Write) {
     let mut skip = false;
@@ -1698,9 +2033,16 @@ pub fn replay(text: &str, out: &mut dyn Write) {
                 p_line(out, ver, pw, fh, &unhex(w[4]));
             }
             "B" if w.len() >= 5 => {
-                // a builder case is replayed through its bytes: re-parse the body it produced
                 let ver: u8 = w[1].parse().unwrap_or(5);
                 let pw: u8 = w[2].parse().unwrap_or(2);
+                // the builder call itself is re-executed from its description …
+                let fh = u8::from_str_radix(w[3], 16).unwrap_or(0);
+                if let Some(eq) = w.iter().position(|x| *x == "=") {
+                    if replay_b(ver, pw, fh >> 4, &w[4..eq], out) {
+                        continue;
+                    }
+                }
+                // … or, if that cannot be read (traces of the old format), through its bytes: re-parse the body it produced
                 if let Some(pos) = w.iter().position(|x| *x == "ok") {
                     if let Some(h) = w.get(pos + 2) {
                         if let Some((fh, body)) = split_frame(&unhex(h)) {
